@@ -204,6 +204,8 @@ class Translator:
 
     def ex(self, n, c, binds, want=None):
         """translate; effectful sub-expressions are appended to `binds` as (pattern, option-valued lean term)"""
+        if isinstance(n, ast.Await):
+            return self.ex(n.value, c, binds, want)      # scheduling is not part of this translation: an await is its value
         ev = self.enum_value(n)
         if ev is not None:
             return str(ev), NAT
@@ -728,6 +730,9 @@ class Translator:
                             and x.func.value.id in c.env and c.env[x.func.value.id][0] == "rec" \
                             and getattr(self.fns.get(c.env[x.func.value.id][1] + "." + x.func.attr), "mutating", False):
                         add(x.func.value.id)
+                    if isinstance(x, ast.Call) and isinstance(x.func, ast.Attribute) and isinstance(x.func.value, ast.Attribute) \
+                            and isinstance(x.func.value.value, ast.Name) and x.func.attr in ("extend", "clear", "write", "pop", "reset"):
+                        add(x.func.value.value.id)
                     if isinstance(x, ast.Call) and isinstance(x.func, ast.Name) and x.func.id == "next" and x.args \
                             and isinstance(x.args[0], ast.Attribute) and isinstance(x.args[0].value, ast.Name):
                         add(x.args[0].value.id)
@@ -797,9 +802,31 @@ class Translator:
         if isinstance(s, ast.AugAssign) and isinstance(s.target, ast.Name):
             fake = ast.BinOp(left=ast.Name(id=s.target.id, ctx=ast.Load()), op=s.op, right=s.value)
             return self.assign(s.target, fake, c, cont)
+        if isinstance(s, ast.Expr) and isinstance(s.value, ast.Await):
+            s = ast.Expr(value=s.value.value)
         if isinstance(s, ast.Expr) and isinstance(s.value, ast.Call):
             call = s.value
             f = call.func
+            # self.field.extend(x) / self.field.clear() on a bytes field; self.writer.write(x) / self.writer.drain()
+            if isinstance(f, ast.Attribute) and isinstance(f.value, ast.Attribute) and isinstance(f.value.value, ast.Name) \
+                    and c.env.get(f.value.value.id, (None,))[0] == "rec":
+                obj, fld = f.value.value.id, f.value.attr
+                ft = [x[1] for x in self.records[c.env[obj][1]] if x[0] == fld]
+                if ft and ft[0] == BYTES and f.attr == "extend" and len(call.args) == 1:
+                    binds, e, t = self.expr(call.args[0], c, BYTES)
+                    return self.wrap(binds, "let %s := { %s with %s := %s.%s ++ %s }\n%s" % (obj, obj, fld, obj, fld, e, cont(c)))
+                if ft and ft[0] == BYTES and f.attr == "clear" and not call.args:
+                    return "let %s := { %s with %s := [] }\n%s" % (obj, obj, fld, cont(c))
+                if ft and ft[0] == T_rec("Writer") and f.attr == "write" and len(call.args) == 1:
+                    binds, e, t = self.expr(call.args[0], c, BYTES)
+                    return self.wrap(binds, "let %s := { %s with %s := { %s.%s with log := %s.%s.log ++ [%s] } }\n%s" % (
+                        obj, obj, fld, obj, fld, obj, fld, e, cont(c)))
+                if ft and ft[0][0] == "rec" and (ft[0][1] + "." + f.attr) in self.fns and getattr(self.fns[ft[0][1] + "." + f.attr], "mutating", False) \
+                        and self.fns[ft[0][1] + "." + f.attr].ret == ("unit",) and not call.args:
+                    fn = self.fns[ft[0][1] + "." + f.attr]
+                    return "let %s := { %s with %s := %s %s.%s }\n%s" % (obj, obj, fld, fn.lean, obj, fld, cont(c))
+                if ft and ft[0] == T_rec("Writer") and f.attr == "drain" and not call.args:
+                    return cont(c)       # StreamWriter.drain(): flow control only (assumption A4 of DESIGN.md)
             if isinstance(f, ast.Attribute) and isinstance(f.value, ast.Name) and f.value.id in c.env:
                 obj = f.value.id
                 to = c.env[obj]
@@ -1130,6 +1157,8 @@ class Translator:
         saved_result = self.result
 
         def result(cc, e):
+            if getattr(self, "mutating", False):
+                e = "(%s, self)" % e if e != "()" else "self"
             if cc.reader_fn:
                 return "some (Mimic.Py.Step.ret (%s, %s))" % (e, cc.rd)
             return "some (Mimic.Py.Step.ret %s)" % e
@@ -1426,4 +1455,39 @@ def translate_control():
     out.append("def init (server_id n bits maxSid : Nat) : LocalControl S :=\n  { _connection_seq := { size := some n, value := 0 }, _connections := [], server_id := server_id,\n"
                "    _MAX_CONNECTION_SEQ := n, _CONNECTION_ID_BITS := bits, _MAX_SERVER_ID := maxSid }")
     out.append("end Mimic.Extracted.ControlCode")
+    return "\n".join(out) + "\n"
+
+
+# ----------------------------------------------------------------------------- stream.py: MysqlStream.write / drain
+def translate_stream():
+    """→ Lean source of namespace Mimic.Extracted.StreamCode: MysqlStream.drain and MysqlStream.write over an explicit
+    object state (sequence counter, write buffer, the list of `transport.write` calls)"""
+    from mysql_mimic import stream as St, utils as U
+    records = {
+        "seq": [("size", T_opt(NAT), None), ("value", NAT, None)],
+        "Writer": [("log", T_list(BYTES), None)],
+        "MysqlStream": [("seq", T_rec("seq"), None), ("_buffer", BYTES, None), ("_buffer_size", NAT, None), ("writer", T_rec("Writer"), None)],
+    }
+    out = ["-- GENERATED by harness/extract.py (harness/pytrans2.py) from /repo/mysql_mimic/{utils,stream}.py — do not edit",
+           "import Mimic.Py", "import Mimic.Extracted.Types", "namespace Mimic.Extracted.StreamCode", "open Mimic.Py", "",
+           "variable {S : Type}", ""]
+    tu = Translator(U, {}, records)
+    out.append(tu.record_decl("seq"))
+    out.append(tu.function("seq.__next__", "seq_next", self_type=T_rec("seq"), ret=NAT, mutating=True))
+    out.append(tu.function("seq.reset", "seq_reset", self_type=T_rec("seq"), ret=("unit",), mutating=True))
+    ts = Translator(St, {}, records, fuel_hints={"MysqlStream.write": "param"})
+    ts.fns.update(lib_fns())
+    ts.fns.update(tu.fns)
+    ms = T_rec("MysqlStream")
+    out.append(ts.record_decl("Writer"))
+    out.append(ts.record_decl("MysqlStream"))
+    out.append(ts.function("MysqlStream.drain", "ms_drain", self_type=ms, ret=("unit",), mutating=True))
+    out.append(ts.function("MysqlStream.write", "ms_write", self_type=ms, ret=("unit",), mutating=True))
+    out.append(ts.function("MysqlStream.reset_seq", "reset_seq", self_type=ms, ret=("unit",), mutating=True))
+    isrc = inspect.getsource(St.MysqlStream.__init__)
+    for w in ("self.seq = seq(256)", "self._buffer = bytearray()", "self._buffer_size = buffer_size"):
+        if w not in isrc:
+            raise Untranslatable("MysqlStream.__init__ no longer contains `%s`" % w)
+    out.append("def init (buffer_size : Nat) : MysqlStream S :=\n  { seq := { size := some 256, value := 0 }, _buffer := [], _buffer_size := buffer_size, writer := { log := [] } }")
+    out.append("end Mimic.Extracted.StreamCode")
     return "\n".join(out) + "\n"
